@@ -39,7 +39,7 @@ ASSUMPTIONS = ['gfortran 12 -O0 with run-time checks is the reference semantics'
                'type-bound calls are resolved before DerivedTypeArgumentsTransformation (as in the shipped pipelines), '
                'except in the dt_tb_unresolved slice']
 BUDGET_S = {'quick': 400, 'thorough': 3000}
-CASE_TIMEOUT_S = 600
+CASE_TIMEOUT_S = 1800
 
 TMODES = ['dt', 'dt', 'dta', 'tb', 'tbd', 'tbdt', 'tbdt', 'seq', 'seq', 'shape', 'shape', 'dup', 'dupr', 'dupd']
 GENMODE = {'dt': 'dt', 'dta': 'dt', 'tb': 'tb', 'tbd': 'tb', 'tbdt': 'tb', 'seq': 'seq', 'shape': 'shape',
@@ -50,7 +50,8 @@ HAZ_FOR = {
     'tb': ['tb_generic', 'tb_nested_function'], 'tbd': ['tb_generic'],
     'tbdt': ['tb_nested_function', 'tb_generic'],
     'seq': ['seq_span', 'seq_kw', 'seq_offset2d'],
-    'shape': ['shape_lbound', 'shape_section', 'shape_two_callers', 'shape_member_dim', 'shape_star_deferred'],
+    'shape': ['shape_lbound', 'shape_section', 'shape_two_callers', 'shape_member_dim', 'shape_star_deferred',
+              'shape_star_literal_index'],
     'dup': ['dup_spec_use', 'dup_diff_bounds'], 'dupr': ['dup_spec_use'],
 }
 
@@ -165,6 +166,77 @@ def transform(case, tmode, wd):
     return new, changed, len(sched.items)
 
 
+def build_pair(wd, orig_files, new_files, changed, main, timeout=900):
+    """
+    Build original and transformed project.  Files the transformation left untouched are taken from the original
+    (their regenerated text is C01's subject, not ours) and the objects / module files of the untouched *leading*
+    files in dependency order are reused.  Returns (orig_exe, new_exe, status, detail).
+    """
+    od, nd = wd / 'orig', wd / 'new'
+    for d in (od, nd):
+        shutil.rmtree(d, ignore_errors=True)
+        d.mkdir(parents=True)
+    flags = list(diffexec.FFLAGS)
+
+    def comp(d, name, text):
+        (d / name).write_text(text)
+        rc, _, err = diffexec._run(['gfortran'] + flags + ['-c', name, '-o', name + '.o'], d, timeout)  # pylint: disable=protected-access
+        return rc, err
+
+    def link(d, names):
+        rc, _, err = diffexec._run(['gfortran'] + flags + [n + '.o' for n in names] + ['-o', 'a.out'], d, timeout)  # pylint: disable=protected-access
+        return rc, err
+
+    ofiles = list(orig_files) + [main]
+    for name, text in ofiles:
+        rc, err = comp(od, name, text)
+        if rc != 0:
+            return None, None, 'timeout' if rc == -999 else 'orig_bad', f'{name}: {err[-1200:]}'
+    rc, err = link(od, [n for n, _ in ofiles])
+    if rc != 0:
+        return None, None, 'timeout' if rc == -999 else 'orig_bad', 'link: ' + err[-1200:]
+    nfiles = [(n, t if n in changed else dict(orig_files)[n]) for n, t in new_files] + [main]
+    reuse = True
+    for name, text in nfiles:
+        if reuse and name not in changed and name != main[0]:
+            for f in od.iterdir():
+                if f.name == name + '.o' or f.suffix == '.mod':
+                    shutil.copy(f, nd / f.name)
+            # only module files produced so far are present in od at this point? no: od holds all of them; a stale
+            # .mod of a later (changed) module is overwritten when that module is recompiled below
+            continue
+        reuse = False
+        rc, err = comp(nd, name, text)
+        if rc != 0:
+            return od / 'a.out', None, 'timeout' if rc == -999 else 'new_build_fail', f'fc: {name}: {err[-1500:]}'
+    rc, err = link(nd, [n for n, _ in nfiles])
+    if rc != 0:
+        return od / 'a.out', None, 'timeout' if rc == -999 else 'new_build_fail', 'link: ' + err[-1500:]
+    return od / 'a.out', nd / 'a.out', 'ok', ''
+
+
+def differential(wd, orig_files, new_files, changed, main, stdins):
+    oexe, nexe, status, detail = build_pair(wd, orig_files, new_files, changed, main)
+    if status != 'ok':
+        return {'status': status, 'detail': detail, 'runs': 0}
+    nruns = 0
+    for sin in stdins:
+        ro = diffexec.run(oexe, stdin=sin, timeout=300)
+        if ro['rc'] == -999:
+            return {'status': 'timeout', 'detail': 'original timed out', 'runs': nruns}
+        if ro['san'] or ro['rc'] != 0:
+            return {'status': 'orig_bad', 'detail': f"original rc={ro['rc']} {ro['san'][:2]} {ro['err'][-300:]}", 'runs': nruns}
+        rn = diffexec.run(nexe, stdin=sin, timeout=300)
+        if rn['rc'] == -999:
+            return {'status': 'timeout', 'detail': 'transformed program timed out', 'runs': nruns}
+        nruns += 1
+        eq, why = diffexec.outputs_equal(ro, rn)
+        if not eq:
+            return {'status': 'differ', 'detail': why, 'stdin': sin, 'orig_out': ro['out'][-1500:],
+                    'new_out': rn['out'][-1500:], 'new_err': rn['err'][-800:], 'runs': nruns}
+    return {'status': 'equal', 'detail': '', 'runs': nruns}
+
+
 def _norm_compile_error(detail):
     m = re.search(r'Error: (.{0,120})', detail or '')
     if not m:
@@ -208,27 +280,26 @@ def run_case(idx, rng, tier, ctx):
             new, changed, nitems = transform(case, tmode, wd)
         except Exception as e:  # pylint: disable=broad-except
             # decide whether the original is sound before blaming the transformation
-            chk = diffexec.differential(wd / 'chk', case.files, case.files, ('main.F90', case.driver),
-                                        stdins=case.stdins[:1])
-            if chk['status'] == 'orig_bad':
-                res['inconclusive'] = 'generator defect: ' + chk['detail'][:300]
+            chk = differential(wd / 'chk', case.files, case.files, [], ('main.F90', case.driver), case.stdins[:1])
+            if chk['status'] in ('orig_bad', 'timeout'):
+                res['inconclusive'] = ('generator defect: ' if chk['status'] == 'orig_bad' else 'timeout: ') + chk['detail'][:300]
                 return res
             key = classify(tmode, hazard, f'exception:{innermost_loki_frame(e)}', '')
             res['violations'].append({'key': key, 'msg': f'{type(e).__name__}: {e}'[:500], 'witness': witness})
             return res
         res['counters']['scheduler_items'] = nitems
         res['counters']['files_changed'] = len(changed)
-        d = diffexec.differential(wd / 'x', case.files, new, ('main.F90', case.driver), stdins=case.stdins)
+        d = differential(wd / 'x', case.files, new, changed, ('main.F90', case.driver), case.stdins)
         res['counters']['program_runs'] = d['runs'] * 2
         res['counters']['transformed_builds'] = 1 if d['status'] != 'orig_bad' else 0
         witness['transformed'] = {n: t for n, t in new if n in changed}
         if d['status'] == 'orig_bad':
             res['inconclusive'] = 'generator defect: ' + d['detail'][:400]
+        elif d['status'] == 'timeout':
+            res['inconclusive'] = 'timeout (wall-clock effects are never a verdict): ' + d['detail'][:200]
         elif d['status'] == 'new_build_fail':
             res['violations'].append({'key': classify(tmode, hazard, 'compile', d['detail']),
                                       'msg': d['detail'][:700], 'witness': witness})
-        elif d['status'] == 'differ' and 'TIMEOUT' in d['detail']:
-            res['inconclusive'] = 'transformed program timed out (wall-clock effects are never a verdict)'
         elif d['status'] == 'differ':
             witness['diff'] = {k: d.get(k) for k in ('detail', 'stdin', 'orig_out', 'new_out', 'new_err')}
             res['violations'].append({'key': classify(tmode, hazard, 'differ', d['detail'] + ' ' + d.get('new_err', '')),
